@@ -26,8 +26,9 @@ impl AttrMap {
 
     /// Inserta valor v en la clave k y devuelve el valor existente o None
     pub fn insert<K: ToString>(&mut self, k: &K, v: &str) -> Option<BdlValue> {
+        // Los literales no finitos (nan, inf, 1e39) no son números de BDL
         let val: BdlValue = match v.parse::<f32>() {
-            Ok(num) => BdlValue::Number(num),
+            Ok(num) if num.is_finite() => BdlValue::Number(num),
             _ => BdlValue::String(v.trim().to_string()),
         };
         self.0.insert(k.to_string(), val)
@@ -199,7 +200,9 @@ pub fn extract_f32vec<S: AsRef<str> + std::fmt::Debug>(input: S) -> Result<Vec<f
         .map(|v| {
             v.trim()
                 .parse::<f32>()
-                .map_err(|_| format_err!("Error al convertir {}", v))
+                .ok()
+                .filter(|num| num.is_finite())
+                .ok_or_else(|| format_err!("Error al convertir {}", v))
         })
         .collect::<Result<Vec<f32>, _>>()
         .map_err(|_| format_err!("Error en la conversión numérica de {:?}", input))
